@@ -39,7 +39,7 @@ THEOREMS = [
     "RefineImgIo2.tostack_call_eq", "RefineImgIo2.save_tif_eq", "RefineImgIo2.transform_and_save_eq", "RefineImgIo2.nrrd_init_eq",
     "RefineImgIo2.v3d_init_eq", "RefineImgIo2.v3draw_init_eq", "RefineImgIo2.v3dpbd_init_eq", "RefineImgIo2.imagestack_get_full_eq",
     "RefineImgIo2.gray_get_full_eq", "RefineImgIo2.gray_spec", "RefineImgIo2.frameOpt_spec", "RefineImgIo2.transform_nd_refines",
-    "RefineImgIo2.transform_nd_eq_transform",
+    "RefineImgIo2.transform_nd_eq_transform", "RefineImgIo2.gray_getitem_never_returns", "RefineImgIo2.gray_init_eq",
     "C20.generated_call_layout", "C20.generated_call_empty", "C20.generated_save_tif_writes", "C20.generated_raster_file_roundtrip",
     "C20.generated_raster_file_single_plane", "C20.generated_raster_file_empty", "C20.generated_codec_inits", "C20.generated_get_full",
     "C20.generated_call_every_tree",
@@ -1247,7 +1247,7 @@ class ImgIo2Gen(Suite):
     stand-in, and a real rasterisation whose sampler answers are recorded and handed to the generated `transform`"""
     name = "c20.imgio2-gen"
     case_timeout = 60
-    OPS = ["call", "savew", "saveio", "nrrd", "v3d", "v3draw", "v3dpbd", "full", "gray", "frame"]
+    OPS = ["call", "savew", "saveio", "nrrd", "v3d", "v3draw", "v3dpbd", "full", "gray", "frame", "grayget"]
 
     def cases(self, rng, tier, widen):
         n = 60 if tier == "thorough" or widen else 24
@@ -1263,6 +1263,9 @@ class ImgIo2Gen(Suite):
             elif op in ("nrrd", "v3d", "v3draw", "v3dpbd"):
                 rank = rng.choice([3, 4, 4, 2, 5]) if rng.random() < 0.3 else rng.choice([3, 4])
                 c.update(kind=rng.choice(["u8", "u16", "f32"]), shape=[rng.randint(1, 3) for _ in range(rank)], to=rng.choice([None, "u8", "u16", "f32"]))
+            elif op == "grayget":
+                c.update(kind=rng.choice(["u8", "f32"]), shape=[rng.randint(1, 3) for _ in range(3)] + [1])
+                c["key"] = [rng.randint(-d - 1, d) for d in c["shape"][:3]]
             elif op in ("full", "gray"):
                 rank = rng.choice([4, 4, 4, 3, 5]) if op == "gray" else rng.choice([4, 4, 3, 5])
                 c.update(kind=rng.choice(["u8", "f32"]), shape=[rng.randint(1, 3) for _ in range(rank)])
@@ -1354,6 +1357,12 @@ class ImgIo2Gen(Suite):
                     st = io.NDArrayImageStack.__new__(io.NDArrayImageStack)
                     st.imgs = a.copy()                       # any rank: what `self[:, :, :, :]` does to the array
                     return {"arr": _arr_text(io.ImageStack.get_full(st))}
+                if op == "grayget":
+                    try:
+                        v = io.GrayImageStack(io.NDArrayImageStack(a.copy()))[tuple(case["key"])]
+                    except RecursionError:
+                        return {"exc": "RecursionError"}
+                    return {"arr": _arr_text(v)}
                 if op == "gray":
                     st = io.NDArrayImageStack.__new__(io.NDArrayImageStack)
                     st.imgs = a.copy()
@@ -1412,6 +1421,9 @@ class ImgIo2Gen(Suite):
             wtxt = ",".join(["0"] * res["warnings"])
             return [(f"gsavetifio {base} rd={rd}", lambda o, want=res["arr"], exact=exact, wtxt=wtxt: len(o.split(";")) == 2 and o.split(";")[0] == wtxt
                      and _same_arr(o.split(";")[1], want, exact))]
+        if op == "grayget":
+            # the method calls itself: no result at any recursion depth (a value returned by the real method disagrees with `E`)
+            return [(f"ggrayget {base} key={gen.ints(case['key'])} fuel={n}", "E" if "exc" in res else res["arr"]) for n in (1, 50)]
         if op in ("full", "gray"):
             return [(f"g{op} {base}", "E" if "exc" in res else res["arr"])]
         to = case["to"] or "none"
